@@ -1,2 +1,4 @@
 import SspModel.Props.C02
 #print axioms Model.C02.C02_partial
+#print axioms Model.C02.number_conserved
+#print axioms Model.C02.mass_never_gained
